@@ -5,6 +5,16 @@ HERE = os.path.dirname(os.path.dirname(os.path.abspath(__file__)))
 
 CLAIMED = {
  # id: (level, technique, text, note, design_ref)
+ "C09": ("exploration",
+         "deterministic simulation: seeded segmentation / buffer-carrier / output-mode histories against the one-shot reference",
+         "Seeded search over histories on every stateful family (block, stream and AEAD ciphers, hashes, XOFs, MACs, strxor): partitions of AAD, message and XOF output with cut points biased to internal cache, block, rate and chunk sizes (empty segments included), a buffer carrier per segment (bytes, bytearray, read-only / writable / offset memoryview), an output mode per call (returned, output=, output aliased to the input) and re-use of the caller's buffer after the call; every byte is compared with the one-shot computation, inputs and guard bands are checked for stray writes. Sampling, not proof.",
+         "Trusted: the library's own one-shot result on bytes as reference (conformance is C02/C03). Only the ctypes branch of _raw_api runs (cffi absent).",
+         "DESIGN.md section 4 (C09), Appendix B"),
+ "C11": ("exploration",
+         "deterministic simulation: seeded encrypt/seek histories with position jumps and continuation after limit errors, against Python-int counter models and an independent ChaCha20 block function",
+         "Seeded search over histories that drive one cipher object across its key-stream limit: CTR with every counter width, endianness, prefix/suffix split and initial value (limit crossed by volume for 1-2 byte counters, by a jump of the byte counter for wider ones), ChaCha20/XChaCha20 encrypt()/seek() around 2^32 and 2^64 blocks, CCM's nonce-dependent length limit with retries, HPKE sequence exhaustion; every returned byte is compared with an independent key-stream model and every call after a limit error must fail or stay below the limit. Sampling, not proof.",
+         "Trusted: library ECB as block oracle for CTR key stream; pure-Python ChaCha20 reference; CTR byte-counter jump writes the C state through ctypes after validating the struct layout (reported unreached if validation fails). GCM's 64 GiB limit and Salsa20's 2^64 blocks are out of reach and listed as not reached.",
+         "DESIGN.md section 4 (C11)"),
  "C10": ("exploration",
          "deterministic simulation: seeded call histories with forbidden calls injected as faults, checked against reference life-cycle automata and the one-shot result",
          "Seeded search over method-call histories (about a third of the calls forbidden on purpose) on every AEAD mode, classic mode, stream cipher, hash, XOF and MAC family; each call is judged against an executable automaton transcribed from the documented state diagrams and every output against the one-shot computation over the accepted calls. Sampling, not proof: a clean batch is evidence with the coverage counts attached.",
